@@ -210,9 +210,12 @@ impl LookupClass<&StringName, Class> for Context {
             }
 
             let clss = Class::try_from((generic_class, &generics, pos))?;
+            // parents are a set: fold them in a fixed order, so that the member which is inherited
+            // when two parents define the same name does not depend on the iteration order
             let clss = clss
                 .parents
                 .iter()
+                .sorted()
                 .map(|p| self.class(p, pos))
                 .collect::<TypeResult<Vec<Class>>>()?
                 .iter()
